@@ -62,6 +62,11 @@ def gen_cases(tier, seed):
     for k, cse in enumerate(cases):
         if k % 3 == 0:
             cse["history"] = int(rng.integers(1, 1 << 31))
+    # units as an input class (the same law with variables in micro- or kilo-units)
+    urng = np.random.default_rng([seed, 1, 77])
+    for k, cse in enumerate(cases):
+        if k % 4 == 1:
+            cse["units"] = [float(urng.choice([1e-6, 1e-3, 1e-2, 1e2, 1e3, 1e5])) for _ in cse["spec"]["dims"]]
     # the shipped test model and the OMAE V-Hs structure as fixed members
     for sp_ in (S.spec_seastate(), S.spec_omae_vhs()):
         for method in ("iform", "isorm"):
@@ -268,6 +273,11 @@ def run_case(case, ctx):
     from virocon import IFORMContour, ISORMContour
 
     spec = case["spec"]
+    if case.get("units"):
+        scaled = S.rescale_spec(spec, case["units"])
+        if scaled is not None:
+            spec = case["spec"] = scaled  # (the contour monitor reads the spec of the running case)
+            ctx.cls("units", "rescaled")
     model = S.build_virocon(spec)
     ctx.cls("structure", [d.get("cond") for d in spec["dims"]])
     ctx.cls("n_dim", len(spec["dims"]))
